@@ -192,7 +192,7 @@ fn check(prop: &str, tier: &str) -> i32 {
         std::fs::write(&extra_path, extra.iter().map(|i| i.to_string()).collect::<Vec<_>>().join("\n")).unwrap_or_else(|e| die(&format!("{e}")));
         println!("mtsim: {} scenario file(s) differ from the recorded digests ({}{}): {} extra runs", changed_files.len(), changed_files.iter().take(4).cloned().collect::<Vec<_>>().join(", "), if changed_files.len() > 4 { ", …" } else { "" }, extra.len());
     }
-    println!("mtsim check property={property} engine={engine_id} tier={tier} seed={base} runs={total} ({} scenario files x {reps}) + {} corpus runs, workers={workers}", env.scenarios.len(), load_corpus(property).len());
+    println!("mtsim check property={property} engine={engine_id} tier={tier} seed={base} runs={total} ({} scenario files x {reps}) + {} corpus runs (and their scaled-up variants), workers={workers}", env.scenarios.len(), load_corpus(property).len());
     let mut kids = vec![];
     for p in 0..workers {
         let pre = work.join(format!("w{p}"));
@@ -203,6 +203,35 @@ fn check(prop: &str, tier: &str) -> i32 {
             .spawn()
             .unwrap_or_else(|e| die(&format!("spawn worker: {e}")));
         kids.push((p, pre, child));
+    }
+    // first-touch workers: one short-lived process per message type whose warm-up touches a scenario
+    // of that type first, followed by a small batch of further runs (indices beyond the main batch)
+    let mut first_touch_types = 0u64;
+    if std::env::var("MTSIM_NO_FIRST_TOUCH").is_err() {
+        let mut seen_types: Vec<(String, usize)> = vec![];
+        for (i, sc) in env.scenarios.iter().enumerate() {
+            if !seen_types.iter().any(|(t, _)| *t == sc.mt) {
+                seen_types.push((sc.mt.clone(), i));
+            }
+        }
+        let per = if tier == "thorough" { 400u64 } else { 48 };
+        let start = total + 10_000_000;
+        for (k, (_mt, idx)) in seen_types.iter().enumerate() {
+            let pre = work.join(format!("ft{k}"));
+            let ex = work.join(format!("ft{k}.idx"));
+            let ids: Vec<String> = (0..per).map(|j| (start + k as u64 * per + j).to_string()).collect();
+            std::fs::write(&ex, ids.join("\n")).unwrap_or_else(|e| die(&format!("{e}")));
+            let child = Command::new(&exe)
+                .args(["worker", engine_id, &base.to_string(), &(1000 + k as u64).to_string(), "1", "0"])
+                .arg(&pre)
+                .arg(&ex)
+                .env("MTSIM_FIRST_TOUCH", idx.to_string())
+                .env("MTSIM_NO_CORPUS", "1")
+                .spawn()
+                .unwrap_or_else(|e| die(&format!("spawn first-touch worker: {e}")));
+            kids.push((1000 + k as u64, pre, child));
+            first_touch_types += 1;
+        }
     }
     let mut reports: Vec<WorkerReport> = vec![];
     let (mut fps, mut shapes, mut contents) = (HashSet::new(), HashSet::new(), HashSet::new());
@@ -370,6 +399,7 @@ fn check(prop: &str, tier: &str) -> i32 {
             "rule": dispatch!(prop, E => rule_text(<E as Engine>::PROPERTY)),
             "samples": samples,
             "technique": "deterministic simulation with fault injection: seeded search over entropy streams, wall-clock faults and caller schedules",
+            "first_touch_worker_processes": first_touch_types,
             "runs": runs, "corpus_runs": corpus_runs, "extra_runs_on_changed_scenario_files": extra.len(), "changed_scenario_files": changed_files, "corpus_candidate_keys_reached": cand.len(), "nontrivial_runs": nontrivial, "discarded_runs": discarded, "discard_reasons": discard_reasons,
             "runs_per_hour": if wall > 0.0 { (runs as f64 / wall * 3600.0) as u64 } else { 0 },
             "seeds_per_hour": if wall > 0.0 { (runs as f64 / wall * 3600.0) as u64 } else { 0 },
